@@ -29,7 +29,7 @@ def prepare_all(backends, profile="dev"):
 
 
 def plan(env, tier, seed, profile="dev"):
-    n = 3 if tier == "quick" else 40
+    n = 10 if tier == "quick" else 40
     tasks = []
     for b, e in env.items():
         reg = e["reg"]
